@@ -170,8 +170,13 @@ func suiteAuthIp(c *Ctx) {
 				ips = append(ips, ip)
 			}
 		}
-		if r.Chance(15) && len(ips) > 0 {
-			ips = append(ips, ips[0]) // duplicate
+		// duplicate lines (a hand-edited file): none, one, or several, anywhere in the list
+		if r.Chance(40) && len(ips) > 0 {
+			for d := r.Range(1, 4); d > 0; d-- {
+				at := r.Intn(len(ips) + 1)
+				dup := ips[r.Intn(len(ips))]
+				ips = append(ips[:at], append([]string{dup}, ips[at:]...)...)
+			}
 		}
 		return ipver{r.Chance(80), ips}
 	}
